@@ -321,6 +321,43 @@ def run(program, rep, tier, sleep_only=False):
                     flag('step', e.node, 'a coroutine is inserted at the '
                          'left of the active deque: runnable coroutines lose '
                          'their relative order')
+    # the frame's loops end through their tests only: a `break` that is not
+    # the sentinel / wake test leaves runnable coroutines unstepped (or due
+    # ones asleep) for this frame
+    def _loop_breaks(fn_node):
+        out = []
+
+        def rec(stmts, guard):
+            for s_ in stmts:
+                if isinstance(s_, ast.Break):
+                    out.append((s_, guard))
+                elif isinstance(s_, ast.If):
+                    rec(s_.body, norm(s_.test))
+                    rec(s_.orelse, 'not ' + norm(s_.test))
+                elif isinstance(s_, (ast.For, ast.FunctionDef)):
+                    continue
+                elif isinstance(s_, ast.While):
+                    rec(s_.body, None)
+                else:
+                    for fld in ('body', 'orelse', 'finalbody'):
+                        sub_ = getattr(s_, fld, None)
+                        if isinstance(sub_, list) and sub_ and isinstance(
+                                sub_[0], ast.stmt):
+                            rec(sub_, guard)
+                    for h_ in getattr(s_, 'handlers', []) or []:
+                        rec(h_.body, guard)
+        for wl_ in [x for x in ast.walk(fn_node) if isinstance(x, ast.While)]:
+            rec(wl_.body, None)
+        return out
+    from dlint.normalise import closure_nodes
+    for node_ in closure_nodes(program, cp, f):
+        for brk, guard in _loop_breaks(node_):
+            if guard is None or not (f'{AQ}[0] is None' in guard
+                                     or WQ in guard):
+                flag('step', brk, 'a loop of the frame is left by `break` '
+                     'under a condition other than its own test: the '
+                     'coroutines still before the sentinel are not advanced '
+                     'in this frame (or due waiters stay asleep)')
     for k, minimum in (('adv', 1), ('reset', 1), ('push', 1), ('wake', 1),
                        ('iter', 1)):
         rep.floor('C08.paths', f'{k} events on the paths of process()',
